@@ -34,9 +34,13 @@ func run(c *hlib.Ctx) {
 	guarded := lakeh.Profile{Name: "c15-guarded", W: w, MaxOps: 16, Guarded: true, Plain: true}
 	open := lakeh.Profile{Name: "c15-open", W: w, MaxOps: 12, Plain: true}
 	lakeh.RunWitnesses(c, "C15", lakeh.Options{Prop: "C15", StopOnFail: true})
+	if c.Want("exhaustive") {
+		lakeh.RunExhaustive(c, lakeh.Options{Prop: "C15", StopOnFail: true}, []string{"La", "Lb", "B"},
+			[]string{"Lc", "La", "D1", "Dc", "C", "M", "Mr", "R"}, c.N(2, 3))
+	}
 	lakeh.RunPlan(c, lakeh.Plan{
 		Opt:      lakeh.Options{Prop: "C15", StopOnFail: true},
 		Profiles: []lakeh.Profile{guarded, open},
-		Quick:    90, Thorough: 2500,
+		Quick:    50, Thorough: 2500,
 	})
 }
